@@ -55,4 +55,7 @@ theorem src_C19_nodata_cb (l : String) (isNumber : String → Bool) :
   unfold nodataCb cli_nodataNullWords
   simp only [List.mem_cons, List.mem_nil_iff, or_false]
 
+/-- every lock is created once, by the thread that constructs the object (or that calls `stats`), never by a worker (C04) -/
+theorem src_C04_locks : lockSitesModel = locks_created := rfl
+
 end Homonim
